@@ -200,3 +200,18 @@ Theorem C11_pinned_single_record_unfiltered_refuted :
   exists peer r, on_distance peer [0] r = false /\ filter_response pinned peer [0] [r] = ([r], false).
 Proof. exact pinned_single_record_unfiltered. Qed.
 Print Assumptions C11_pinned_single_record_unfiltered_refuted.
+
+(* Configuration plumbing (Model/Config.v, transcribing ConfigBuilder, Config, Discv5::new / Discv5::start,
+   tied to the code by the `glue` correspondence run on real loopback sockets): the parameters the theorems
+   above take as given are the ones the application configured - the value set last through the builder,
+   or the default - at every component they are handed to. *)
+Require Discv5V.Generated.Params Discv5V.Model.Config Discv5V.Proofs.Config.
+Theorem C11_configured_ban_duration_reaches_service_and_handler : forall ops v, Discv5V.Model.Config.start_node ops = Some v ->
+  Discv5V.Model.Config.VO (Discv5V.Model.Config.c_ban_duration (Discv5V.Model.Config.nv_built v)) = Discv5V.Model.Config.configured ops Discv5V.Model.Config.FBanDuration /\
+  Discv5V.Model.Config.VO (Discv5V.Model.Config.c_ban_duration (Discv5V.Model.Config.nv_service v)) = Discv5V.Model.Config.configured ops Discv5V.Model.Config.FBanDuration /\
+  Discv5V.Model.Config.VO (Discv5V.Model.Config.c_ban_duration (Discv5V.Model.Config.nv_handler v)) = Discv5V.Model.Config.configured ops Discv5V.Model.Config.FBanDuration.
+Proof. exact Discv5V.Proofs.Config.effective_ban_duration. Qed.
+Print Assumptions C11_configured_ban_duration_reaches_service_and_handler.
+Theorem C11_configuration_example : exists v, Discv5V.Model.Config.start_node Discv5V.Proofs.Config.example_ops = Some v.
+Proof. destruct Discv5V.Proofs.Config.example_starts as [v [H _]]. exists v. exact H. Qed.
+Print Assumptions C11_configuration_example.
